@@ -167,4 +167,57 @@ def runPool {Res : Type} (s : Shape) : Cells → List (Stmt Res × Val) → Cell
       let b := runPool s a.1 r
       (b.1, a.2 :: b.2)
 
+/-! ## `YaqlInterface.__call__` as a host step (`yaql/yaql_interface.py:50-63`)
+
+`yi = YaqlInterface(host_context, engine)` is built by the host around a context of its own; every
+`yi(expression, *args, **kwargs)` (1) makes a private child of the wrapped context, (2) publishes the call's
+parameters there - `$1`, `$2`, .. for the positional ones, `$name` for the keyword ones, in that order -,
+(3) evaluates the parsed expression with that child as the supplied context and NO data (`evaluate(context=child)`),
+(4) drops the child (it stays behind as a garbage cell of the store; nothing of the host refers to it). -/
+
+/-- one interface call, as far as contexts are concerned -/
+structure ICall where
+  /-- `$1`, `$2`, .. and `$name` with the (converted) values, in publication order -/
+  params : List (Name × Val)
+  fin : Fid
+  /-- the evaluator's context-API calls, frame 0 = the private child -/
+  body : List Step
+deriving Repr, Inhabited
+
+/-- `for ..: context['$' + ..] = value` -/
+def publish (cs : Cells) (ch : Shape) : List (Name × Val) → Cells
+  | [] => cs
+  | (n, v) :: r => publish (setData cs ch n v) ch r
+
+/-- the private child of one call with its parameters published: new store and the child
+    (`none`: `create_child_context` raises, nothing happened) -/
+def interfaceFrame (cs : Cells) (s : Shape) (params : List (Name × Val)) : Option (Cells × Shape) :=
+  match createChild cs.length s with
+  | .typeError => none
+  | .ok ch _ => some (publish (cs ++ [{}]) ch params, ch)
+
+/-- `yi(expression, *args, **kwargs)` on the interface wrapping context `s`: the store afterwards -/
+def interfaceCall (cs : Cells) (s : Shape) (c : ICall) : Cells :=
+  match interfaceFrame cs s c.params with
+  | none => cs
+  | some (cs1, ch) => evaluate cs1 ch none c.fin c.body
+
+/-- any number of calls through one interface -/
+def interfaceCalls (cs : Cells) (s : Shape) : List ICall → Cells
+  | [] => cs
+  | c :: r => interfaceCalls (interfaceCall cs s c) s r
+
+/-- what the call must NOT be: the parameters published into the wrapped context itself -/
+def interfaceCallLeaky (cs : Cells) (s : Shape) (c : ICall) : Cells :=
+  evaluate (publish cs s c.params) s none c.fin c.body
+
+/-- the result side of a call: the statement runs on the private child -/
+def interfaceEval {Res : Type} (cs : Cells) (s : Shape) (params : List (Name × Val)) (st : Stmt Res) :
+    Option (Cells × Res) :=
+  match interfaceFrame cs s params with
+  | none => none
+  | some (cs1, ch) =>
+      let p := st.prog cs1 ch
+      some ((run ⟨cs1, [ch]⟩ p.1).cells, p.2)
+
 end Yaql.Effects
